@@ -476,6 +476,23 @@ def mk_or(items):
     return atom(("or", tuple(sorted(out, key=akey))))
 
 
+def _canon_cond(c):
+    """(condition, flipped): a canonical choice between a condition and its negation, so that
+    `if c: A else: B` and `if not c: B else: A` build the same gated phi."""
+    a = c.single_atom()
+    if a is None:
+        return c, False
+    if a[0] == "not":
+        return a[1], True
+    if a[0] == "cmp" and a[1] in ("!=", ">="):
+        return mk_not(c), True
+    if a[0] == "or":
+        return mk_not(c), True
+    if a[0] == "notin":
+        return mk_not(c), True
+    return c, False
+
+
 def mk_ite(c, a, b):
     v = truth(c) if is_pure_const(c) else None
     if v is True:
@@ -484,6 +501,9 @@ def mk_ite(c, a, b):
         return b
     if a == b:
         return a
+    c, flipped = _canon_cond(c)
+    if flipped:
+        a, b = b, a
     ca = is_constbool(a)
     cb = is_constbool(b)
     if ca is not None or cb is not None:
